@@ -33,6 +33,9 @@ import (
 
 const denom = "uakt"
 
+// denom2: a second denomination every cast member also holds, so that requests paying in the wrong coin are executable
+const denom2 = "uatom"
+
 // Cast member names, in a fixed order; addresses are derived from the name.
 var castNames = []string{"T1", "T2", "P1", "P2", "U1", "U2", "B"}
 
@@ -99,7 +102,7 @@ func NewWorld(gp GenesisParams) *World {
 	total := sdk.NewCoins()
 	for i, n := range cast.Names {
 		accs = append(accs, authtypes.NewBaseAccount(cast.Addr[n], nil, uint64(i), 0))
-		coins := sdk.NewCoins(sdk.NewInt64Coin(denom, gp.Funds))
+		coins := sdk.NewCoins(sdk.NewInt64Coin(denom, gp.Funds), sdk.NewInt64Coin(denom2, 1000))
 		bals = append(bals, banktypes.Balance{Address: cast.S(n), Coins: coins})
 		total = total.Add(coins...)
 	}
